@@ -1947,35 +1947,35 @@ MANIFEST = {
     "design_ref": "DESIGN.md 4/C04",
 }
 FINDINGS = [
-    {"status": "fixed", "key": "nat_const_ineq:conclusion-differs:types-only", "commit": "fixes/C04-1-nat_const_ineq.patch",
+    {"status": "fixed", "key": "nat_const_ineq:conclusion-differs:types-only", "commit": "2b672bd",
      "what": "nat_const_ineq on ~((2::real) = 0): eval reports |- ~((2::real) = 0), the expansion proves |- ~((2::nat) = 0)"},
-    {"status": "fixed", "key": "nat_const_ineq:conclusion-differs:structure", "commit": "fixes/C04-1-nat_const_ineq.patch",
+    {"status": "fixed", "key": "nat_const_ineq:conclusion-differs:structure", "commit": "2b672bd",
      "what": "nat_const_ineq on ~(of_nat 1 = (0::nat)): eval reports the goal, the expansion proves the normal form ~((1::nat) = 0)"},
-    {"status": "fixed", "key": "imp_conj:conclusion-differs:head", "commit": "fixes/C04-2-imp_conj.patch",
+    {"status": "fixed", "key": "imp_conj:conclusion-differs:head", "commit": "74e5417",
      "what": "imp_conj on `A & A` (not an implication): eval reports |- A & A, the expansion proves |- A --> A"},
-    {"status": "fixed", "key": "imp_disj:conclusion-differs:head", "commit": "fixes/C04-3-imp_disj.patch",
+    {"status": "fixed", "key": "imp_disj:conclusion-differs:head", "commit": "acb88ff",
      "what": "imp_disj on `E | E`: eval reports |- E | E, the expansion proves |- E --> E"},
-    {"status": "fixed", "key": "prove_avalI:conclusion-differs:head", "commit": "fixes/C04-4-prove_avalI.patch",
+    {"status": "fixed", "key": "prove_avalI:conclusion-differs:head", "commit": "63a7008",
      "what": "prove_avalI on `r s t n` with another head constant r: eval reports |- r s t n, the expansion proves |- avalI s t n"},
-    {"status": "fixed", "key": "imp_to_or:conclusion-differs:structure", "commit": "fixes/C04-5-imp_to_or.patch",
+    {"status": "fixed", "key": "imp_to_or:conclusion-differs:structure", "commit": "f0479c6",
      "what": "imp_to_or args=(~c, ~c | a) prevs=[|- a]: eval reports |- ~c | a, the expansion proves |- ~c | ~~(~c | a) | a (goal argument treated as a literal)"},
-    {"status": "fixed", "key": "verit_eq_congruent_pred:expansion-rejected:output-does-not-match", "commit": "fixes/C04-5-imp_to_or.patch",
+    {"status": "fixed", "key": "verit_eq_congruent_pred:expansion-rejected:output-does-not-match", "commit": "f0479c6",
      "what": "verit_eq_congruent_pred on ~(x = y) | P x | ~P y: every expansion ends in an imp_to_or step that the checker rejects"},
-    {"status": "fixed", "key": "verit_eq_congruent:expansion-rejected:output-does-not-match", "commit": "fixes/C04-8-verit_eq_congruent.patch",
+    {"status": "fixed", "key": "verit_eq_congruent:expansion-rejected:output-does-not-match", "commit": "855946d",
      "what": "verit_eq_congruent on ~(y = w) | f w = f y: expansion assumes w = y, which the literal does not discharge; checker rejects (also needs C04-5)"},
-    {"status": "fixed", "key": "verit_th_resolution:expansion-rejected:AssertionError", "commit": "fixes/C04-6-swap_disj_to_front.patch",
+    {"status": "fixed", "key": "verit_th_resolution:expansion-rejected:AssertionError", "commit": "76800df",
      "what": "verit_th_resolution on [|- false | a, |- ~a | ~d] -> ~d | false: nested swap_disj_to_front / combine_disj_clauses expand to the bare premise, `export: atom` (C04-6, C04-7)"},
-    {"status": "fixed", "key": "verit_norm_lia:conclusion-differs:structure", "commit": "fixes/C04-9-verit_norm_lia.patch",
+    {"status": "fixed", "key": "verit_norm_lia:conclusion-differs:structure", "commit": "1bfb078",
      "what": "verit_norm_lia on i: eval reports |- i = 0 + i, the expansion proves |- i = 1 * i"},
-    {"status": "fixed", "key": "verit_norm_lra:conclusion-differs:structure", "commit": "fixes/C04-10-verit_norm_lra.patch",
+    {"status": "fixed", "key": "verit_norm_lra:conclusion-differs:structure", "commit": "7458045",
      "what": "verit_norm_lra on s: eval reports |- s = 0 + s, the expansion proves |- s = 1 * s"},
-    {"status": "fixed", "key": "verit_la_generic:expansion-rejected:output-does-not-match", "commit": "fixes/C04-9-verit_norm_lia.patch",
+    {"status": "fixed", "key": "verit_la_generic:expansion-rejected:output-does-not-match", "commit": "1bfb078",
      "what": "verit_la_generic: every expansion with a verit_norm_lia/lra step is rejected by the checker (C04-9, C04-10)"},
-    {"status": "fixed", "key": "fun_upd_eval:expansion-rejected:TypeInferenceException", "commit": "fixes/C04-1-nat_const_ineq.patch",
+    {"status": "fixed", "key": "fun_upd_eval:expansion-rejected:TypeInferenceException", "commit": "2b672bd",
      "what": "fun_upd_eval on ((%x::int. 0)(0 := 1)) 3 = 0: the expansion contains a nat_const_ineq step on int numerals (accepted by its eval before C04-1)"},
-    {"status": "fixed", "key": "fun_upd_eval:expansion-rejected:output-does-not-match", "commit": "fixes/C04-1-nat_const_ineq.patch",
+    {"status": "fixed", "key": "fun_upd_eval:expansion-rejected:output-does-not-match", "commit": "2b672bd",
      "what": "same cause as above"},
-    {"status": "fixed", "key": "intros:expansion-rejected:InvalidDerivationException", "commit": "fixes/C04-11-apply_theorem.patch",
+    {"status": "fixed", "key": "intros:expansion-rejected:InvalidDerivationException", "commit": "ad652d7",
      "what": "intros args=[?m. n = 2 * m] prevs=[|- ?m. n = 2 * m, |- _VAR m, n = 2 * m |- n = 2 * m, |- (%m. n = 2 * m) n]: the nested "
              "apply_theorem exE step evaluates (premises matched up to beta) but its expansion raises, so the checker rejects the expansion of intros"},
     {"status": "fixed", "key": "verit_not_implies1:hypotheses-added:premise-hypotheses-missing-in-eval", "commit": "fixes/C18-08-not_implies-hyps.patch",
